@@ -230,12 +230,19 @@ def _run_interpolate(case, ctx):
     ctx.nontrivial = case["ni"] >= 2 and L not in lens
 
 
+def _layout(arr, case):
+    """the same 3-d array in another memory layout (values, not strides, define a panel): C order, Fortran order, or the transposed view of a
+    (time, column, instance) recording"""
+    k = (case["p"] // 2) % 3
+    return [arr, np.asfortranarray(arr), np.ascontiguousarray(arr.transpose(2, 1, 0)).T][k]
+
+
 def _run_tabularizer(case, ctx):
     from sktime.transformations.panel.reduce import Tabularizer
     data, df, lens = _panel(case, allow_unequal=False)
     arr = np.array(data)
     use_np = case["p"] % 2 == 0
-    ok, out = ctx.call("tabularizer:exception", Tabularizer().fit_transform, arr if use_np else df)
+    ok, out = ctx.call("tabularizer:exception", Tabularizer().fit_transform, _layout(arr, case) if use_np else df)
     if not ok:
         return
     exp = arr.reshape(arr.shape[0], -1)
@@ -255,7 +262,7 @@ def _run_concatenator(case, ctx):
     from sktime.transformations.panel.compose import ColumnConcatenator
     data, df, lens = _panel(case, allow_unequal=False)
     arr = np.array(data)
-    ok, out = ctx.call("concatenator:exception", ColumnConcatenator().fit_transform, arr if case["p"] % 2 else df)
+    ok, out = ctx.call("concatenator:exception", ColumnConcatenator().fit_transform, _layout(arr, case) if case["p"] % 2 else df)
     if not ok:
         return
     exp = [[arr[i].reshape(-1)] for i in range(arr.shape[0])]
